@@ -6,6 +6,7 @@ package vgirpc
 import (
 	"bytes"
 	"fmt"
+	"math"
 	"reflect"
 	"strconv"
 	"time"
@@ -293,7 +294,13 @@ func setFieldFromArrow(field reflect.Value, fieldType reflect.Type, col arrow.Ar
 		t := time.Date(1970, 1, 1, 0, 0, 0, 0, time.UTC).Add(time.Duration(us) * time.Microsecond)
 		setTimeField(field, fieldType, isPtr, t)
 	case *array.Duration:
-		d := time.Duration(c.Value(idx)) * time.Microsecond
+		// Microseconds to nanoseconds multiplies by 1000; a value time.Duration
+		// cannot hold is refused rather than bound as a wrapped one.
+		us := int64(c.Value(idx))
+		if us > math.MaxInt64/1000 || us < math.MinInt64/1000 {
+			return fmt.Errorf("duration of %d microseconds overflows time.Duration", us)
+		}
+		d := time.Duration(us) * time.Microsecond
 		setDurationField(field, fieldType, isPtr, d)
 	case *array.Decimal128:
 		dt := c.DataType().(*arrow.Decimal128Type)
